@@ -10,6 +10,14 @@
 (*     /res/sub        a directory inside it                               *)
 (*     /out, /out/sub  the image output directory and a directory in it    *)
 (*     /dec            a directory that is neither (decoy files live here) *)
+(*     /sib            a look-alike SIBLING: a directory next to the site's *)
+(*                     base directory whose name has the base directory's  *)
+(*                     name as a proper prefix (res_evil next to res for   *)
+(*                     the CMap sites, out_evil next to out for the image  *)
+(*                     site).  Containment is a relation on path           *)
+(*                     COMPONENTS (IsPrefix on sequences); a test on the    *)
+(*                     characters of the spelled path takes /sib for       *)
+(*                     inside - the deviation ContainmentByCharacters.     *)
 (*     @pkg            resource directory no. 2 (the package's cmap        *)
 (*                     directory), somewhere else: its parent, like the    *)
 (*                     root's parent, is the unknown region "@above" in    *)
@@ -34,10 +42,12 @@ CONSTANTS Dev,        \* subset of AllDev
           ImageCases  \* set of [init: subset of {-1, 0, 1}, draws: 1..2] for the image site ({} = site not explored)
 
 AllDev == {"CMapNameUnconfined",     \* _load_data joins the name unchecked: any *.pickle.gz can be opened (and unpickled)
-           "ImageNameUnconfined"}    \* _create_unique_image_name joins the XObject name unchecked
+           "ImageNameUnconfined",    \* _create_unique_image_name joins the XObject name unchecked
+           "ContainmentByCharacters"}   \* "inside the directory" decided on the characters of the real path (startswith /
+                                     \* commonprefix without a separator) instead of on its components
 ASSUME Dev \subseteq AllDev
 
-Plain == {"H", "dec", "evil", "sub", "zz"}
+Plain == {"H", "dec", "evil", "sub", "zz", "sib"}
 Seg == Plain \cup {"dd", "d", "e", "nul", "long"}
 
 VARIABLES site, name, icase,            \* chosen by Init
@@ -57,15 +67,19 @@ Above == <<"@above">>
 Pkg == <<"@pkg">>
 Res == <<"res">>
 Out == <<"out">>
-Dirs == {Root, Res, <<"res", "sub">>, Out, <<"out", "sub">>, <<"dec">>, Pkg}
+Sib == <<"sib">>
+Dirs == {Root, Res, <<"res", "sub">>, Out, <<"out", "sub">>, <<"dec">>, Sib, Pkg}
 \* existing *.pickle.gz files, by directory and base word
 PickleFiles == {<<Pkg, "H">>,                       \* a genuine character map of the package
                 <<<<"dec">>, "H">>,                 \* a file of the same name outside
+                <<Sib, "evil">>,                    \* a decoy in the look-alike sibling of the resource directory
                 <<Res, "evil">>, <<<<"res", "sub">>, "evil">>,   \* files inside resource directory 1
                 <<<<"dec">>, "evil">>,              \* the decoy outside
                 <<Res, "to-unicode-Adobe-evil">>}   \* a unicode map inside resource directory 1
 IsPrefix(p, q) == Len(p) <= Len(q) /\ SubSeq(q, 1, Len(p)) = p
 InResource(d) == IsPrefix(Res, d) \/ IsPrefix(Pkg, d)
+\* what a character-wise test ("/x/res_evil/f".startswith("/x/res")) takes for inside as well
+LooksInside(base, d) == base \in {Res, Out} /\ IsPrefix(Sib, d)
 InOut(d) == IsPrefix(Out, d)
 
 Up(d) == IF d = Above \/ d = Root \/ d = Pkg THEN Above ELSE SubSeq(d, 1, Len(d) - 1)
@@ -132,9 +146,11 @@ ATryDir ==
          p == ParentDir(d, nm)          \* (a prefixed first component is a word that exists nowhere as a directory)
          hit == p \notin {Fail, Above} /\ FileWord(LastWord(nm)) # "" /\ <<p, FileWord(LastWord(nm))>> \in PickleFiles
          inside == hit /\ IsPrefix(d, p)
-     IN IF hit /\ (inside \/ "CMapNameUnconfined" \in Dev)
+         looks == hit /\ ~inside /\ LooksInside(d, p) /\ "ContainmentByCharacters" \in Dev
+     IN IF hit /\ (inside \/ looks \/ "CMapNameUnconfined" \in Dev)
         THEN /\ reads' = reads \cup {<<p, FileWord(LastWord(nm))>>}          \* opened, read, unpickled
-             /\ blame' = IF inside THEN blame ELSE blame \cup {"CMapNameUnconfined"}
+             /\ blame' = IF inside THEN blame
+                         ELSE IF looks THEN blame \cup {"ContainmentByCharacters"} ELSE blame \cup {"CMapNameUnconfined"}
              /\ phase' = "done" /\ dirs' = <<>>
         ELSE /\ dirs' = Tail(dirs) /\ UNCHANGED <<reads, blame>>
              /\ phase' = IF Tail(dirs) = <<>> THEN "done" ELSE "try"           \* raise CMapNotFound (caught by callers)
@@ -184,7 +200,7 @@ Spec == Init /\ [][Next]_vars
 (* The property.                                                           *)
 (***************************************************************************)
 \* every file opened for reading is a resource inside a resource directory (the input is passed in open)
-ReadsConfined == \A r \in reads : InResource(r[1]) \/ "CMapNameUnconfined" \in blame
+ReadsConfined == \A r \in reads : InResource(r[1]) \/ blame \cap {"CMapNameUnconfined", "ContainmentByCharacters"} # {}
 \* every file created lies inside the output directory
 WritesConfined == \A k \in 1..Len(creates) : InOut(creates[k].dir) \/ "ImageNameUnconfined" \in blame
 \* a path that exists is never opened for writing
